@@ -21,6 +21,8 @@ use std::panic::{AssertUnwindSafe, catch_unwind};
 use vcore::{Json, Rng, mix};
 
 pub const BLOCK: u64 = 256;
+/// cases handed to the decoder thread at once (BLOCK is a multiple)
+pub const BATCH: u64 = 32;
 pub const ANN_MAGIC: u32 = 0x4137_3043; // "C07A"
 pub const DEC_SETUP: u8 = 0xfe;
 pub const ANN_HDR: usize = 40;
@@ -930,6 +932,37 @@ fn shrink(
     (cur, rn.evals)
 }
 
+/// What decoding the block's *type* allocates independently of the input (fixed-size arrays and
+/// default members that appendable / mutable aggregates fill in when the data ends early): the
+/// largest amount requested for header-only and all-zero inputs in the four encodings. Twice that
+/// is added to the allocation bound of every case of the block.
+fn type_baseline(cfg: &Cfg, pool: &mut decoders::Pool, dec: Decoder, dt: Option<DynamicType<'static>>, idx: u64) -> u64 {
+    pool.extra_limit = 0;
+    let mut base = 0u64;
+    for rid in [0u8, 1, 6, 7] {
+        for n in [0usize, 4, 8, 64] {
+            let mut input = vec![0, rid, 0, 0];
+            input.resize(4 + n, 0);
+            let run = pool.run(
+                dec,
+                dt,
+                decoders::Spec {
+                    idx,
+                    flags: 2,
+                    class: "type_baseline",
+                    input: &input,
+                },
+                cfg.k,
+                cfg.c,
+            );
+            if run.cap.is_none() {
+                base = base.max(run.stats.total);
+            }
+        }
+    }
+    base
+}
+
 pub struct ChildState {
     pub known: HashSet<String>,
     pub samples_sent: HashSet<String>,
@@ -992,7 +1025,10 @@ pub fn post_case(
     for k in &case.kinds {
         agg.set("submessage_kinds_encoded", k);
     }
-    if matches!(dec, Decoder::Xtypes | Decoder::TlRequest | Decoder::TlReply) && class != "random" && input.len() >= 2 {
+    if matches!(dec, Decoder::Xtypes | Decoder::TlRequest | Decoder::TlReply)
+        && input.len() >= 2
+        && (class.starts_with("valid") || class.starts_with("reprid_swap") || class == "random_prefixed")
+    {
         agg.set(&format!("repr_ids.{}", dec.name()), &format!("{:02x}{:02x}", input[0], input[1]));
     }
     if dec == Decoder::Xtypes {
@@ -1039,6 +1075,7 @@ pub fn post_case(
         agg.maxstat("valid_alloc_minus_k_len_max", over);
         agg.maxstat(&format!("valid_alloc_minus_k_len_max.{}", dec.name()), over);
         agg.maxstat("valid_alloc_total_max", run.stats.total as i128);
+        agg.maxstat("valid_alloc_minus_bound_max", run.stats.total as i128 - run.stats.limit as i128);
         if input.len() >= 64 {
             agg.maxstat("valid_alloc_per_input_byte_x100_max", (run.stats.total as i128 * 100) / input.len() as i128);
             agg.maxstat(
@@ -1183,7 +1220,7 @@ fn child_body(args: &vcore::Args) -> i32 {
         shard: args.u64("shard", 0),
         k: args.u64("alloc-k", 1024),
         c: args.u64("alloc-c", 1 << 20),
-        shrink_budget: args.u64("shrink-budget", 400) as usize,
+        shrink_budget: args.u64("shrink-budget", 250) as usize,
     };
     let ann_path = args.str("ann", "");
     let ann = match Announcer::open(&ann_path) {
@@ -1230,7 +1267,13 @@ fn child_body(args: &vcore::Args) -> i32 {
 
     let from = args.u64("from", 0);
     let to = args.u64("to", 0);
-    let batch = args.u64("batch", 32).max(1);
+    let batch = BATCH;
+    // cases that killed an earlier child of this shard (recorded by the parent, not to be run again)
+    let skip: HashSet<u64> = args
+        .str("skip", "")
+        .split(',')
+        .filter_map(|x| x.parse().ok())
+        .collect();
     let ctx_path = args.str("ctx", "");
     let debug = std::env::var_os("C07_DEBUG").is_some();
     let mut blk: Option<BlockCtx> = None;
@@ -1248,6 +1291,12 @@ fn child_body(args: &vcore::Args) -> i32 {
                     .set("type", c.ty_json.clone().unwrap_or(Json::Null));
                 let _ = std::fs::write(&ctx_path, j.to_string());
             }
+            pool.extra_limit = 0;
+            if c.dec == Decoder::Xtypes && c.dt.is_some() {
+                let base = type_baseline(&cfg, &mut pool, c.dec, c.dt, idx);
+                pool.extra_limit = base.saturating_mul(2);
+                agg.maxstat("type_baseline_alloc_max", base as i128);
+            }
             blk = Some(c);
         }
         let ctx = blk.as_ref().unwrap();
@@ -1257,6 +1306,9 @@ fn child_body(args: &vcore::Args) -> i32 {
         let tg = std::time::Instant::now();
         let mut cases: Vec<(u64, Case)> = Vec::with_capacity((end - idx) as usize);
         for i in idx..end {
+            if skip.contains(&i) {
+                continue;
+            }
             pool.announce(i, DEC_SETUP, 0, "generate", &[]);
             match quiet(|| make_case(&cfg, ctx, i, &mut agg)) {
                 Ok(c) => cases.push((i, c)),
@@ -1380,6 +1432,10 @@ fn replay_one(
                 return 0;
             }
         }
+    }
+    if dec == Decoder::Xtypes && ctx.dt.is_some() {
+        let base = type_baseline(cfg, pool, dec, ctx.dt, idx);
+        pool.extra_limit = base.saturating_mul(2);
     }
     let case = Case {
         input,
